@@ -837,11 +837,69 @@ func mangle(c context, templateName string) string {
 	return s
 }
 
+// maxOpenPrefix bounds the static text that becomes part of the name of a copy (see
+// openPrefix): a recursive template that lengthens such a text at every level is refused
+// at this length instead of being copied without end.
+const maxOpenPrefix = 256
+
+// openPrefix returns, for the classes of valuePrefixClass within which the text itself still
+// decides what an action is checked against, that text: an unsafe URL prefix may be completed
+// to a safe one or to another scheme or origin by what the template adds, and an enumerated
+// value under construction is completed to a different value. It also returns the end of a
+// text that stops inside a percent-encoding triplet or a numeric or named character
+// reference, which the text of the template goes on with. (A bare "&" is not such an end:
+// query strings are commonly written with it.)
+func openPrefix(c context, class string) string {
+	v := c.attr.value
+	switch {
+	case strings.HasPrefix(class, "unsafePrefix"), strings.HasPrefix(class, "partialValue"):
+		return v
+	case containsWhitespaceOrControlPattern.MatchString(v) || containsWhitespaceOrControlPattern.MatchString(html.UnescapeString(v)):
+		// Refused in front of every action in a URL.
+		return " "
+	}
+	if m := endsWithCharRefPrefixPattern.FindString(v); len(m) > 1 {
+		return m
+	}
+	return endsWithPercentEncodingPrefixPattern.FindString(html.UnescapeString(v))
+}
+
 // valuePrefixClass classifies the static text seen so far in the attribute value that c is
 // in by what it means for the sanitization of an action that follows it: nothing yet, a
 // prefix that ends in the path, one that ends in the query or fragment, an unsafe prefix,
 // or part of an enumerated value. It returns "" where the text makes no difference.
 func valuePrefixClass(c context) string {
+	class := valuePrefixKind(c)
+	if class == "" && !(c.state == stateAttr && !c.attr.ambiguousValue && styleAttrVal(c)) {
+		return ""
+	}
+	if open := openPrefix(c, class); open != "" {
+		class += "(" + open + ")"
+	}
+	return class
+}
+
+// styleAttrVal reports whether c is in the value of a style attribute under one of the
+// names its element and attribute may have.
+func styleAttrVal(c context) bool {
+	elems, attrs := c.element.names, c.attr.names
+	if len(elems) == 0 {
+		elems = []string{c.element.name}
+	}
+	if len(attrs) == 0 {
+		attrs = []string{c.attr.name}
+	}
+	for _, elem := range elems {
+		for _, attr := range attrs {
+			if sc, err := sanitizationContextForAttrVal(elem, attr, c.linkRel); err == nil && sc == sanitizationContextStyle {
+				return true
+			}
+		}
+	}
+	return false
+}
+
+func valuePrefixKind(c context) string {
 	if c.state != stateAttr || c.attr.ambiguousValue {
 		return ""
 	}
@@ -860,7 +918,9 @@ func valuePrefixClass(c context) string {
 				continue
 			}
 			switch {
-			case sc.isEnum():
+			case sc.isEnum(), elem == "link" && attr == "rel", elem == "script" && attr == "type":
+				// (The rel value of a link and the type of a script decide how later
+				// attributes and the body are sanitized.)
 				if c.attr.value != "" {
 					return "partialValue"
 				}
@@ -902,6 +962,12 @@ func (e *escaper) escapeTree(c context, node parse.Node, name string, line int) 
 	// Mangle the template name with the input context to produce a reliable
 	// identifier.
 	dname := mangle(c, name)
+	if len(openPrefix(c, valuePrefixKind(c))) > maxOpenPrefix {
+		return context{
+			state: stateError,
+			err:   errorf(ErrBadHTML, node, line, "{{template %q}} follows %d bytes of an attribute value that is still incomplete", name, len(c.attr.value)),
+		}, dname
+	}
 	if dname != name && e.derived[dname] == nil && !e.ns.derivedNames[dname] && e.template(dname) != nil {
 		// A template of the set happens to have the name of the copy: it was
 		// not analysed for this context and must not be taken for the copy.
